@@ -123,9 +123,133 @@ static int record_findmin(Rng& g, bool quick, Trace& T)
 	return 0;
 }
 
+// whole executions of Minimization::minimize on arbitrary objectives against spec/Trace_NM.tla: objective values as ranks
+static int record_nm(Rng& g, bool quick, Trace& T)
+{
+	int n = quick ? 400 : 6000;
+	for(int i = 0; i < n; i++)
+	{
+		int dim = (int)g.range(1, 6), fam = (int)g.range(0, 5);
+		std::vector<double> c(dim), sc(dim);
+		for(int j = 0; j < dim; j++)
+		{
+			c[j]  = g.gauss() * std::pow(10.0, g.uni(-2, 2));
+			sc[j] = g.logu(1e-2, 1e2);
+		}
+		double w = g.uni(1, 6), f0 = g.coin(0.3) ? 0.0 : g.uni(-5, 5);
+		std::function<double(std::vector<double>)> f = [=](std::vector<double> x) {
+			double s = 0;
+			for(int j = 0; j < dim; j++)
+			{
+				double t = (x[j] - c[j]) / sc[j];
+				switch(fam)
+				{
+					case 0: s += t * t; break;														// bowl
+					case 1: s += t * t + 3.0 * (1.0 - std::cos(w * t)); break;						// many local minima
+					case 2: s += std::fabs(t) + (t > 0 ? t : 0.0); break;							// kinks
+					case 3: s += std::floor(std::fabs(t)); break;									// plateaus: equal values everywhere
+					case 4: s += t * t * t * t - 2.0 * t * t + 0.3 * t; break;						// two wells per coordinate
+					default: s += (j + 1 < dim ? 10.0 * std::pow((x[j + 1] - c[j + 1]) / sc[j + 1] - t * t, 2) : 0.0) + (1 - t) * (1 - t); break;	// curved valley
+				}
+			}
+			return f0 + s;
+		};
+		std::vector<double> fs;
+		std::function<double(std::vector<double>)> wrapped = [&](std::vector<double> x) { double v = f(x); fs.push_back(v); return v; };
+		double ftol = std::pow(10.0, -g.uni(2, 10));
+		Minimization M(ftol);
+		std::vector<double> start(dim);
+		for(int j = 0; j < dim; j++)
+			start[j] = c[j] + sc[j] * g.gauss() * std::pow(10.0, g.uni(-1, 1.5));
+		int overload = (int)g.range(0, 2);
+		intent("minimize (trace) dim " + std::to_string(dim) + " fam " + std::to_string(fam) + " overload " + std::to_string(overload));
+		// the process may end here (NMAX): run in a child, results through a string
+		ChildResult r = run_child([&]() {
+			if(overload == 0)
+				M.minimize(start, sc[0] * g.logu(1e-2, 10), wrapped);
+			else if(overload == 1)
+			{
+				std::vector<double> dl(dim);
+				for(int j = 0; j < dim; j++)
+					dl[j] = sc[j] * g.logu(1e-2, 10) * (g.coin() ? 1 : -1);
+				M.minimize(start, dl, wrapped);
+			}
+			else
+			{
+				std::vector<std::vector<double>> pp(dim + 1, start);
+				for(int k = 1; k <= dim; k++)
+					for(int j = 0; j < dim; j++)
+						pp[k][j] += sc[j] * g.gauss();
+				M.minimize(pp, wrapped);
+			}
+			std::string sres;
+			char b[40];
+			std::snprintf(b, sizeof b, "%d %a ", M.nfunc, M.fmin);
+			sres += b;
+			for(double v : M.y)
+			{
+				std::snprintf(b, sizeof b, "%a ", v);
+				sres += b;
+			}
+			sres += "| ";
+			for(double v : fs)
+			{
+				std::snprintf(b, sizeof b, "%a ", v);
+				sres += b;
+			}
+			return sres;
+		}, 30);
+		if(!r.returned)
+			continue;	// (NMAX exceeded or time-out: outside what this trace looks at; the S-level events judge termination)
+		std::istringstream is(r.result);
+		int nfunc;
+		std::string tok;
+		is >> nfunc >> tok;
+		double fmin = std::strtod(tok.c_str(), nullptr);
+		std::vector<double> ys, vals;
+		bool bar = false, fin = std::isfinite(fmin);
+		while(is >> tok)
+		{
+			if(tok == "|")
+			{
+				bar = true;
+				continue;
+			}
+			double v = std::strtod(tok.c_str(), nullptr);
+			fin		 = fin && std::isfinite(v);
+			(bar ? vals : ys).push_back(v);
+		}
+		if(!fin || vals.size() > 700 || (int)ys.size() != dim + 1)
+			continue;
+		std::vector<double> uf(vals);
+		std::sort(uf.begin(), uf.end());
+		uf.erase(std::unique(uf.begin(), uf.end()), uf.end());
+		auto rank = [&](double v) {
+			auto it = std::lower_bound(uf.begin(), uf.end(), v);
+			return (it != uf.end() && *it == v) ? (int)(it - uf.begin()) + 1 : 0;
+		};
+		T.emit({{"e", "NStart"}, {"mpts", dim + 1}, {"fam", fam}, {"overload", overload}, {"k", (int)vals.size()}});
+		for(double v : vals)
+			T.emit({{"e", "NEval"}, {"f", rank(v)}});
+		json yr = json::array();
+		for(double v : ys)
+			yr.push_back(rank(v));
+		T.emit({{"e", "NEnd"}, {"y", yr}, {"nfunc", nfunc}, {"fmin", rank(fmin)}});
+	}
+	T.flush();
+	finished();
+	return 0;
+}
+
 int main(int argc, char** argv)
 {
 	guard_install(1500);
+	if(argc == 5 && std::string(argv[1]) == "nmtrace")
+	{
+		Rng g(std::strtoull(argv[2], nullptr, 10));
+		Trace T(argv[4]);
+		return record_nm(g, std::string(argv[3]) == "quick", T);
+	}
 	if(argc == 5 && std::string(argv[1]) == "findmin")
 	{
 		Rng g(std::strtoull(argv[2], nullptr, 10));
